@@ -71,6 +71,7 @@ GENERATORS = [
                   "miniconf/src/iter.rs"), "Core.lean"),
     ("gen_text", ("miniconf/src/node.rs", "miniconf/src/jsonpath.rs", "miniconf/src/key.rs"), "Text.lean"),
     ("gen_impls", ("miniconf/src/impls.rs", "miniconf/src/key.rs", "miniconf/src/tree.rs"), "Impls.lean"),
+    ("gen_leaf", "miniconf/src/leaf.rs", "Leaf.lean"),
 ]
 
 
